@@ -244,7 +244,7 @@ func (s *c18Server) start() { go func() { s.served <- s.srv.ListenAndServe() }()
 // closeServing calls Close until the server is serving (Close reports "server not listening" before that).
 func (s *c18Server) closeServing() {
 	for i := 0; i < 2000000; i++ {
-		if err := s.srv.Close(); err == nil || err.Error() != "server not listening" {
+		if err := s.srv.Close(); !notServingYet(err) {
 			return
 		}
 		runtime.Gosched()
